@@ -130,6 +130,14 @@ type RunResult struct {
 	Infra     string // non-empty: machinery problem (deadlock of the harness, lazy keys, ...)
 }
 
+// onBlowup is installed by the search and replay loops: called (from the
+// watchdog goroutine) when a guarded run is still going after 8 x its guard.
+var onBlowup func(c *Ctx, sc Scenario, st *simrt.Stream, idx int, wall time.Duration)
+
+func blowupMessage(c *Ctx, wall time.Duration) string {
+	return fmt.Sprintf("the run was still going after %.0f s of real time (guard %v) once this input was sent: %s", wall.Seconds(), c.WallGuard, c.WallNote)
+}
+
 func runOne(t *testing.T, prop, tier string, sc Scenario, st *simrt.Stream, log bool, idx int) *RunResult {
 	c := &Ctx{Prop: prop, Tier: tier, Faults: map[string]int{}, Probes: map[string]int{}, RunIndex: idx}
 	var opts simrt.Options
@@ -138,9 +146,30 @@ func runOne(t *testing.T, prop, tier string, sc Scenario, st *simrt.Stream, log 
 	}
 	opts.Log = log
 	wall0 := time.Now()
+	// A run whose scenario set a wall-clock guard (an input whose handling must
+	// take bounded real time) may never come back at all. A watchdog on a real
+	// goroutine outside the simulation then reports the blow-up itself: the
+	// goroutine burning the CPU cannot be stopped, so the process ends there.
+	stopWatch := make(chan struct{})
+	go func() {
+		tick := time.NewTicker(500 * time.Millisecond)
+		defer tick.Stop()
+		for {
+			select {
+			case <-stopWatch:
+				return
+			case <-tick.C:
+				if g := c.WallGuard; g > 0 && onBlowup != nil && time.Since(wall0) > 8*g {
+					onBlowup(c, sc, st, idx, time.Since(wall0))
+					return
+				}
+			}
+		}
+	}()
 	sim := simrt.Run(t, st, opts, func() {
 		sc.Body(c)
 	})
+	close(stopWatch)
 	res := &RunResult{Sim: sim, Ctx: c, Rec: st.Rec}
 	res.Decisions = st.Values()
 	res.Viol = append(res.Viol, c.Viol...)
@@ -363,6 +392,47 @@ func searchMain(t *testing.T, scs []Scenario) int {
 	seenKeys := map[string]bool{}
 	unknown := 0
 	exit := 0
+	finish := func() int {
+		for h := range hashes {
+			wr.Hashes = append(wr.Hashes, h)
+		}
+		sort.Slice(wr.Hashes, func(i, j int) bool { return wr.Hashes[i] < wr.Hashes[j] })
+		wr.WallSeconds = time.Since(start).Seconds()
+		if *fOut != "" {
+			b, _ := json.Marshal(wr)
+			if err := os.WriteFile(*fOut, b, 0644); err != nil {
+				fmt.Fprintln(os.Stderr, err)
+				return 2
+			}
+		}
+		return 0
+	}
+	onBlowup = func(c *Ctx, sc Scenario, st *simrt.Stream, idx int, wall time.Duration) {
+		// the run never came back: report it with the decisions drawn so far
+		// (replaying them re-creates the same input) and end the worker
+		msg := blowupMessage(c, wall)
+		vals := st.Snapshot(300000)
+		rf := &ReplayFile{Prop: *fProp, Scenario: sc.Name, Tier: *fTier, Seed: *fSeed, RunIndex: idx, Key: "input-blowup", Message: msg,
+			Decisions: trimZeros(vals), Original: len(vals), NonZero: nonZero(vals), Repo: os.Getenv("VERIF_REPO_STATE")}
+		path := ""
+		if *fReplays != "" {
+			path = filepath.Join(*fReplays, fmt.Sprintf("%s-%s-%d-%d.json", *fProp, "input-blowup", *fSeed, idx))
+			b, _ := json.MarshalIndent(rf, "", " ")
+			os.MkdirAll(*fReplays, 0755)
+			os.WriteFile(path, b, 0644)
+		}
+		entry := map[string]interface{}{"key": "input-blowup", "message": msg, "replay": path, "run_index": idx, "scenario": sc.Name,
+			"decisions": len(rf.Decisions), "nonzero": rf.NonZero, "original_decisions": rf.Original}
+		if kf := knownOpen(findings, *fProp, "input-blowup"); kf != nil {
+			entry["finding"] = kf.What
+			wr.Known = append(wr.Known, entry)
+		} else {
+			wr.Violations = append(wr.Violations, entry)
+		}
+		wr.Runs++
+		finish()
+		os.Exit(1)
+	}
 	for k := *fWorker; ; k += *fWorkers {
 		if *fMaxRuns > 0 && wr.Runs >= *fMaxRuns {
 			break
@@ -474,17 +544,8 @@ func searchMain(t *testing.T, scs []Scenario) int {
 			break
 		}
 	}
-	for h := range hashes {
-		wr.Hashes = append(wr.Hashes, h)
-	}
-	sort.Slice(wr.Hashes, func(i, j int) bool { return wr.Hashes[i] < wr.Hashes[j] })
-	wr.WallSeconds = time.Since(start).Seconds()
-	if *fOut != "" {
-		b, _ := json.Marshal(wr)
-		if err := os.WriteFile(*fOut, b, 0644); err != nil {
-			fmt.Fprintln(os.Stderr, err)
-			return 2
-		}
+	if rc := finish(); rc != 0 {
+		return rc
 	}
 	if exit == 2 {
 		for _, s := range wr.Infra {
@@ -643,6 +704,15 @@ func replayMain(t *testing.T, scs []Scenario) int {
 	for _, sc := range registry[rf.Prop] {
 		if sc.Name != rf.Scenario {
 			continue
+		}
+		onBlowup = func(c *Ctx, sc Scenario, st *simrt.Stream, idx int, wall time.Duration) {
+			fmt.Printf("violation key=input-blowup: %s\n", blowupMessage(c, wall))
+			if rf.Key == "input-blowup" {
+				fmt.Printf("REPRODUCED property=%s key=%s\n", rf.Prop, rf.Key)
+				os.Exit(1)
+			}
+			fmt.Fprintln(os.Stderr, "INFRA: the replayed run does not terminate")
+			os.Exit(2)
 		}
 		res := runOne(t, rf.Prop, rf.Tier, sc, simrt.NewReplay(rf.Decisions), true, rf.RunIndex)
 		for _, e := range res.Sim.Events {
